@@ -86,6 +86,7 @@ structure FieldDecl where
   cls : Nat      -- the domain class the descriptor instance is attached to
   prop : Nat     -- the descriptor class
   kind : Kind
+  also : List Nat := []   -- further, unrelated domain classes the SAME descriptor class is attached to
   deriving Repr, DecidableEq
 
 structure Schema where
@@ -93,6 +94,7 @@ structure Schema where
   supers : List (Nat × List Nat)   -- descriptor class ↦ its strict super classes (`issubclass`, not itself)
   inverse : List (Nat × Nat)       -- descriptor class ↦ `get_inverse()`
   transProps : List Nat            -- descriptor classes that are `TransitiveProperty`
+  parents : List (Nat × List Nat) := []   -- domain class ↦ its strict super classes (managed fields are inherited)
   deriving Repr
 
 structure World where
@@ -100,7 +102,7 @@ structure World where
   rt : List (Option Nat)           -- role taker of object i (value of its `HasRoleTaker` field), if its class has one
   deriving Repr
 
-def Schema.decl (S : Schema) (f : Nat) : FieldDecl := S.fields.getD f ⟨0, 0, .list⟩
+def Schema.decl (S : Schema) (f : Nat) : FieldDecl := S.fields.getD f { cls := 0, prop := 0, kind := .list }
 def Schema.propOf (S : Schema) (f : Nat) : Nat := (S.decl f).prop
 def Schema.kindOf (S : Schema) (f : Nat) : Kind := (S.decl f).kind
 def Schema.supersOf (S : Schema) (p : Nat) : List Nat :=
@@ -109,9 +111,21 @@ def Schema.inverseOf (S : Schema) (p : Nat) : Option Nat := (S.inverse.find? (fu
 def World.clsOf (W : World) (o : Nat) : Nat := W.cls.getD o 0
 def World.rtOf (W : World) (o : Nat) : Option Nat := (W.rt.getD o none)
 
-/-- the managed fields of class `c` (associations of the class in the class diagram) -/
+/-- `c` is `d` or a subclass of it -/
+def Schema.isa (S : Schema) (c d : Nat) : Bool :=
+  c == d || (match S.parents.find? (fun e => e.1 == c) with | some e => e.2.contains d | none => false)
+
+/-- instances of class `c` have the field: `c` is (a subclass of) one of its domain classes -/
+def Schema.applies (S : Schema) (f c : Nat) : Bool :=
+  S.isa c (S.decl f).cls || (S.decl f).also.any (S.isa c)
+
+/-- the managed fields of class `c` (associations of the class in the class diagram, inherited ones included).
+A relation is identified by (descriptor, source, target): the implementation additionally tells apart the owner
+class recorded in the wrapped field (`Place.located_in` / `City.located_in` for a `City(Place)` instance, or the
+same descriptor class attached to two classes); the model works on the quotient, which is what the property
+observes. -/
 def Schema.fieldsOf (S : Schema) (c : Nat) : List Nat :=
-  (List.range S.fields.length).filter fun f => (S.decl f).cls == c
+  (List.range S.fields.length).filter fun f => S.applies f c
 
 /-- `get_fields_of_superproperties(domain_type)`: fields of `c` whose descriptor class is a strict super class of `p` -/
 def Schema.superFields (S : Schema) (c p : Nat) : List Nat :=
@@ -208,6 +222,9 @@ inductive Op where
   | set1 (f s t : Nat)              -- `s.f = t` on a single-valued field
   | add (f s t : Nat)               -- `s.f.append(t)` / `s.f.add(t)`
   | assign (f s : Nat) (xs : List Nat)   -- `s.f = [..]` / `s.f = {..}` (a fresh collection) on a container field
+  -- an event outside the descriptors: an instance without relations dies, a new instance is created (possibly at
+  -- the same address), dead nodes are swept from the symbol graph — nothing among the live instances changes
+  | churn
   deriving Repr, DecidableEq
 
 /-- `list.append` / `set.add` on the raw contents -/
@@ -229,6 +246,7 @@ def step (R : Rules) (K : Nat → Kind) (n : Nat) (σ : State) : Op → State
     -- `__set__`, container branch: `attr._clear()`, then `_add_item` for every element of `make_set(value)`
     let σ0 : State := { σ with st := σ.st.set f s [], clob := σ.clob || !(σ.st f s).isEmpty }
     (hashOrder xs).foldl (fun h t => addItem R K n h f s t) σ0
+  | .churn => σ
 
 def State.init : State := { g := [], st := ⟨[]⟩, clob := false }
 
@@ -240,6 +258,7 @@ def Op.facts : Op → List Fact
   | .set1 f s t => [(f, s, t)]
   | .add f s t => [(f, s, t)]
   | .assign f s xs => (hashOrder xs).map fun t => (f, s, t)
+  | .churn => []
 
 def asserted (ops : List Op) : List Fact := ops.flatMap Op.facts
 
@@ -248,6 +267,7 @@ def Op.wellKinded (K : Nat → Kind) : Op → Bool
   | .set1 f _ _ => K f == .single
   | .add f _ _ => K f != .single
   | .assign f _ _ => K f != .single
+  | .churn => true
 
 /-- the model of the code on a history: graph, backing fields, clobber flag -/
 def runModel (S : Schema) (W : World) (ops : List Op) : State :=
